@@ -194,6 +194,28 @@ fn eval(v: &Value) -> Value {
                 _ => go!(MolecularShape2),
             }
         }
+        "Cell2::periodic_images" => {
+            // [cell, placement (9 entries), shells, zero] -> the images as matrices, in iteration order
+            let c = cell(&a[0]);
+            let imgs: Vec<Value> = c
+                .periodic_images(tr(&a[1]), a[2].as_i64().unwrap(), a[3].as_bool().unwrap())
+                .map(|t| json!(mat(&t)))
+                .collect();
+            json!(imgs)
+        }
+        "LineShape::intersects" => {
+            // [radii, placement A, placement B] -> the polygon overlap test in both argument orders
+            let radii: Vec<f64> = a[0].as_array().unwrap().iter().map(f).collect();
+            match LineShape::from_radial("P", radii) {
+                Ok(s) => {
+                    let (sa, sb) = (s.transform(&tr(&a[1])), s.transform(&tr(&a[2])));
+                    json!({"ab": sa.intersects(&sb), "ba": sb.intersects(&sa),
+                           "va": sa.items.iter().map(|l| vec![fl(l.start.x), fl(l.start.y)]).collect::<Vec<_>>(),
+                           "vb": sb.items.iter().map(|l| vec![fl(l.start.x), fl(l.start.y)]).collect::<Vec<_>>()})
+                }
+                Err(_) => json!({"err": true}),
+            }
+        }
         "LineShape::radial_area" => {
             let radii: Vec<f64> = a[0].as_array().unwrap().iter().map(f).collect();
             match LineShape::from_radial("P", radii) {
